@@ -420,6 +420,9 @@ impl Context {
 
 impl Fill for Context {
     fn fill_interleaved(&mut self, interleaved: &[i32]) -> Result<(), SourceError> {
+        if self.channels == 0 {
+            return Err(SourceError::by_reason(SourceErrorReason::InvalidBuffer));
+        }
         if interleaved.is_empty() {
             return Ok(());
         }
@@ -433,7 +436,7 @@ impl Fill for Context {
 
     #[inline]
     fn fill_le_bytes(&mut self, bytes: &[u8], bytes_per_sample: usize) -> Result<(), SourceError> {
-        if bytes_per_sample != self.bytes_per_sample {
+        if bytes_per_sample != self.bytes_per_sample || self.channels == 0 {
             return Err(SourceError::by_reason(SourceErrorReason::InvalidBuffer));
         }
         if bytes.is_empty() {
